@@ -500,8 +500,21 @@ def tproxyTproxyChain (c : Call) : List Rule :=
 def tproxyDivertChain (c : Call) : List Rule :=
   [⟨{}, .setMark c.tmark⟩, ⟨{}, .accept⟩]
 
-/-- `tproxy.Method.setup_firewall`, in the order the Python issues the commands. -/
-def tproxyCmds (c : Call) : List Cmd :=
+/-- tproxy.py:131-146: the chain creation and the two `-I … 1` jumps. -/
+def tproxyPre (c : Call) : List Cmd :=
+  let v6 := isV6 c.family
+  let mC := ChainName.tMark c.port
+  let tC := ChainName.tTproxy c.port
+  let dC := ChainName.tDivert c.port
+  [.iptNew v6 .mangle mC, .iptFlush v6 .mangle mC,
+   .iptNew v6 .mangle dC, .iptFlush v6 .mangle dC,
+   .iptNew v6 .mangle tC, .iptFlush v6 .mangle tC,
+   .iptInsert v6 .mangle .output ⟨{}, .jump mC⟩,
+   .iptInsert v6 .mangle .prerouting ⟨{}, .jump tC⟩]
+
+/-- tproxy.py:148-229: all `-A` commands, in the order the Python issues them (the rules of the
+mark chain and of the tproxy chain are interleaved). -/
+def tproxyAppends (c : Call) : List Cmd :=
   let v6 := isV6 c.family
   let mC := ChainName.tMark c.port
   let tC := ChainName.tTproxy c.port
@@ -516,17 +529,15 @@ def tproxyCmds (c : Call) : List Cmd :=
     [A mC ⟨tproxySubnetMatch v6 .tcp s, t1⟩, A tC ⟨tproxySubnetMatch v6 .tcp s, t2⟩] ++
     (if c.udp then [A mC ⟨tproxySubnetMatch v6 .udp s, t1⟩, A tC ⟨tproxySubnetMatch v6 .udp s, t2⟩]
      else [])
-  ([.iptNew v6 .mangle mC, .iptFlush v6 .mangle mC,
-        .iptNew v6 .mangle dC, .iptFlush v6 .mangle dC,
-        .iptNew v6 .mangle tC, .iptFlush v6 .mangle tC,
-        .iptInsert v6 .mangle .output ⟨{}, .jump mC⟩,
-        .iptInsert v6 .mangle .prerouting ⟨{}, .jump tC⟩] ++
-       dns ++
-       [A tC localReturn, A mC localReturn,
-        A dC ⟨{}, .setMark c.tmark⟩, A dC ⟨{}, .accept⟩,
-        A tC (socketRule .tcp c.port)] ++
-       (if c.udp then [A tC (socketRule .udp c.port)] else []) ++
-       subs)
+  dns ++
+  [A tC localReturn, A mC localReturn,
+   A dC ⟨{}, .setMark c.tmark⟩, A dC ⟨{}, .accept⟩,
+   A tC (socketRule .tcp c.port)] ++
+  (if c.udp then [A tC (socketRule .udp c.port)] else []) ++
+  subs
+
+/-- `tproxy.Method.setup_firewall`, in the order the Python issues the commands. -/
+def tproxyCmds (c : Call) : List Cmd := tproxyPre c ++ tproxyAppends c
 
 def tproxySetup (c : Call) : SetupRes :=
   if c.family ≠ AF_INET ∧ c.family ≠ AF_INET6 then .exc "family" else
